@@ -796,6 +796,14 @@ add_flush_events(uint64_t t0, uint64_t t1)
 	post.header.clock = t1;
 	ovni_ev_set_mcv(&post, "OF]");
 
+	/* Ensure both flush events fit in the buffer, otherwise adding them
+	 * would trigger another flush, nesting the flush events and emitting
+	 * them with clocks that go backwards. This can only happen after a
+	 * jumbo event that almost fills the buffer. */
+	size_t size = (size_t) ovni_ev_size(&pre) + (size_t) ovni_ev_size(&post);
+	if (rthread.evlen + size >= OVNI_MAX_EV_BUF)
+		flush_evbuf();
+
 	/* Add the two flush events */
 	ovni_ev_add(&pre);
 	ovni_ev_add(&post);
